@@ -33,7 +33,7 @@ def _dispatch(prop, t):
         fams = {"C05": ["combinators", "maps", "cases", "logging", "mapswitch", "coalesceiter"], "C10": ["combinators", "options:light", "illsorted", "effparams", "selectors", "mapswitch", "caseseq", "coalesceiter"], "C11": ["combinators", "options:light", "illsorted", "selectors", "mapswitch", "deepsections"],
                 "C03": ["combinators", "options:light", "presets:light", "effparams", "selectors", "tmplparams", "mapswitch", "deepsections", "caseseq"], "C08": ["presets", "siblings", "deepsections"],
                 "C01": ["caching", "presets:light", "siblings", "deepsections"],
-                "C02": ["caching", "overloads"], "C06": ["combinators", "caching", "cases", "caseseq", "coalesceiter"], "C12": ["failing", "failing4", "cases", "failseq"], "C16": ["caching@quick", "logging", "logeffects"], "C19": ["classes"], "C20": ["pickling"], "C18": ["combinators:light", "caching@quick", "logging"]}[prop]
+                "C02": ["caching", "overloads", "shadowsection"], "C06": ["combinators", "caching", "cases", "caseseq", "coalesceiter"], "C12": ["failing", "failing4", "cases", "failseq"], "C16": ["caching@quick", "logging", "logeffects"], "C19": ["classes"], "C20": ["pickling"], "C18": ["combinators:light", "caching@quick", "logging"]}[prop]
         import os
         if os.environ.get("VERIF_FAMILIES"):      # development aid: restrict a run to some families
             fams = os.environ["VERIF_FAMILIES"].split(",")
